@@ -414,8 +414,29 @@ fn run_generated(c: &GenCase) -> Outcome {
                 }
             }
         }
-        if produced.len() < 3 {
-            o.push("C13:sign-error", format!("only {} of 3 signing entry points produced a signature", produced.len()));
+        // certifications of another key's identities: the issuer is the signer, never the signee
+        {
+            use pgp::packet::{SignatureType, UserAttribute, UserId};
+            let signee = other.primary_key.public_key();
+            for typ in [SignatureType::CertGeneric, SignatureType::CertPositive] {
+                if let Ok(uid) = UserId::from_str(Default::default(), "Somebody Else <else@example.org>") {
+                    if let Ok(su) = uid.sign_third_party(crate::engine::rng(4), &cert.primary_key, &Password::empty(), signee, typ) {
+                        for s in &su.signatures {
+                            produced.push(("user-id-third-party", s.to_bytes().expect("sig")));
+                        }
+                    }
+                }
+                if let Ok(ua) = UserAttribute::new_image(vec![0xff, 0xd8, 0xff, 0xd9].into()) {
+                    if let Ok(su) = ua.sign_third_party(crate::engine::rng(4), &cert.primary_key, &Password::empty(), signee, typ) {
+                        for s in &su.signatures {
+                            produced.push(("user-attribute-third-party", s.to_bytes().expect("sig")));
+                        }
+                    }
+                }
+            }
+        }
+        if produced.len() < 7 {
+            o.push("C13:sign-error", format!("only {} of 7 signatures from the signing entry points were produced", produced.len()));
         }
         let want_ver = if c.kind.is_v6() { 6 } else { 4 };
         for (name, body) in produced {
@@ -591,9 +612,9 @@ fn run_ops(c: &OpsCase) -> Outcome {
 
 #[derive(Clone, Debug, Hash, Serialize, Deserialize)]
 pub struct MsgEskCase {
-    pub kind: KeyKind,
+    /// recipients in the order they are added: (key, anonymous)
+    pub recipients: Vec<(KeyKind, bool)>,
     pub v2: bool,
-    pub anonymous: bool,
 }
 
 fn run_msg_esk(c: &MsgEskCase) -> Outcome {
@@ -601,7 +622,7 @@ fn run_msg_esk(c: &MsgEskCase) -> Outcome {
         source: 0,
         compression: 0,
         enc: if c.v2 { Enc::V2(7, 2, 0) } else { Enc::V1(7) },
-        esks: vec![EskSpec::Key(c.kind, c.anonymous)],
+        esks: c.recipients.iter().map(|(k, a)| EskSpec::Key(*k, *a)).collect(),
         signers: vec![],
         text: false,
         armor: false,
@@ -612,36 +633,50 @@ fn run_msg_esk(c: &MsgEskCase) -> Outcome {
         Ok(b) => b,
         Err(e) => return Outcome::bad("C13:esk:build-error", e.to_string()),
     };
-    let cert = common::cert(c.kind, 3);
-    let sub = &cert.secret_subkeys[0].key;
     let Ok(ps) = codec::split_packets(&bytes) else {
         return Outcome::bad("C13:esk:unsplittable", String::new());
     };
-    let Some(p) = ps.iter().find(|p| p.0 == 1) else {
-        return Outcome::bad("C13:esk:no-pkesk", String::new());
-    };
-    let Ok(d) = codec::decode_packet(1, &p.2) else {
-        return Outcome::bad("C13:esk:undecodable", String::new());
-    };
-    let mut o = Outcome::ok(if c.anonymous { "wildcard" } else { "recipient-id" });
-    if c.v2 {
-        let f = sub_field(&p.2, &d, Kind::Fingerprint);
-        if c.anonymous {
-            if f.is_some() {
-                o.push("C13:esk:anonymous-v6-carries-fingerprint", String::new());
-            }
-        } else if f != Some(sub.fingerprint().as_bytes()) {
-            o.push("C13:esk:v6-recipient-fingerprint-differs", format!("{:?}", f.map(hex::encode)));
-        }
-    } else {
-        let k = sub_field(&p.2, &d, Kind::KeyId);
-        if c.anonymous {
-            if k != Some(&[0u8; 8][..]) {
-                o.push("C13:esk:anonymous-v3-key-id-not-wildcard", format!("{:?}", k.map(hex::encode)));
-            }
-        } else if k != Some(sub.legacy_key_id().as_ref()) {
-            o.push("C13:esk:v3-recipient-key-id-differs", format!("{:?}", k.map(hex::encode)));
-        }
+    let pkesks: Vec<&(u8, Vec<u8>, Vec<u8>)> = ps.iter().filter(|p| p.0 == 1).collect();
+    let mut o = Outcome::ok(format!("{} recipients", c.recipients.len()));
+    if pkesks.len() != c.recipients.len() {
+        o.push("C13:esk:pkesk-count", format!("{} PKESK packets for {} recipients", pkesks.len(), c.recipients.len()));
+        return o;
+    }
+    // the order of the PKESK packets is the library's choice: compare as multisets
+    let mut want: Vec<Vec<u8>> = Vec::new();
+    for (kind, anonymous) in &c.recipients {
+        let cert = common::cert(*kind, 3);
+        let sub = &cert.secret_subkeys[0].key;
+        want.push(match (c.v2, *anonymous) {
+            (true, true) => vec![],
+            (true, false) => sub.fingerprint().as_bytes().to_vec(),
+            (false, true) => vec![0u8; 8],
+            (false, false) => sub.legacy_key_id().as_ref().to_vec(),
+        });
+    }
+    let mut got: Vec<Vec<u8>> = Vec::new();
+    for p in &pkesks {
+        let Ok(d) = codec::decode_packet(1, &p.2) else {
+            o.push("C13:esk:undecodable", String::new());
+            return o;
+        };
+        let kind = if c.v2 { Kind::Fingerprint } else { Kind::KeyId };
+        got.push(sub_field(&p.2, &d, kind).map(|x| x.to_vec()).unwrap_or_default());
+    }
+    let show = |v: &Vec<Vec<u8>>| v.iter().map(hex::encode).collect::<Vec<_>>().join(",");
+    let (mut ws, mut gs) = (want.clone(), got.clone());
+    ws.sort();
+    gs.sort();
+    if ws != gs {
+        let wild = |v: &Vec<Vec<u8>>| v.iter().filter(|x| x.is_empty() || x.iter().all(|b| *b == 0)).count();
+        let sig = if wild(&ws) != wild(&gs) {
+            if c.v2 { "C13:esk:anonymous-v6-carries-fingerprint" } else { "C13:esk:anonymous-v3-key-id-not-wildcard" }
+        } else if c.v2 {
+            "C13:esk:v6-recipient-fingerprint-differs"
+        } else {
+            "C13:esk:v3-recipient-key-id-differs"
+        };
+        o.push(sig, format!("recipient fields [{}] for recipients [{}] (in the order added)", show(&got), show(&want)));
     }
     o
 }
@@ -762,20 +797,29 @@ pub fn check(ctx: &Ctx) {
     );
 
     let mut ec = Vec::new();
-    for k in [KeyKind::Ed25519V4, KeyKind::Ed25519LegacyV4, KeyKind::EcdsaP256V4, KeyKind::EcdsaP521V4, KeyKind::Rsa2048V4] {
-        for anonymous in [false, true] {
-            ec.push(MsgEskCase { kind: k, v2: false, anonymous });
+    let v4k = [KeyKind::Ed25519V4, KeyKind::Ed25519LegacyV4, KeyKind::EcdsaP256V4, KeyKind::EcdsaP521V4, KeyKind::Rsa2048V4];
+    let v6k = [KeyKind::Ed25519V6, KeyKind::Ed448V6, KeyKind::EcdsaP256V6];
+    for (keys, v2) in [(&v4k[..], false), (&v6k[..], true)] {
+        for k in keys {
+            for anonymous in [false, true] {
+                ec.push(MsgEskCase { recipients: vec![(*k, anonymous)], v2 });
+            }
         }
-    }
-    for k in [KeyKind::Ed25519V6, KeyKind::Ed448V6, KeyKind::EcdsaP256V6] {
-        for anonymous in [false, true] {
-            ec.push(MsgEskCase { kind: k, v2: true, anonymous });
+        // two and three recipients (distinct keys), every named / anonymous pattern
+        let pool = &keys[..3];
+        for n in [2usize, 3] {
+            for first in 0..pool.len() {
+                for mask in 0..(1u32 << n) {
+                    let recipients = (0..n).map(|i| (pool[(first + i) % pool.len()], mask & (1 << i) != 0)).collect();
+                    ec.push(MsgEskCase { recipients, v2 });
+                }
+            }
         }
     }
     ctx.run_space(
         "message_recipient_fields",
         true,
-        "MessageBuilder encrypt_to_key / encrypt_to_key_anonymous for each public-key algorithm: the PKESK carries the recipient subkey's key id (v3) / fingerprint (v6), or the wildcard / empty form",
+        "MessageBuilder encrypt_to_key / encrypt_to_key_anonymous for each public-key algorithm and for 2 and 3 recipients in every named / anonymous pattern: the i-th PKESK carries the i-th recipient subkey's key id (v3) / fingerprint (v6), or the wildcard / empty form",
         ec.into_par_iter(),
         run_msg_esk,
     );
